@@ -19,6 +19,10 @@ var Known = [][]string{
 	// the next AddToxic on that link indexes the chain out of range
 	{"proxy p1 echo", "toxic p1 up a limit_data {\"bytes\":4}", "toxic p1 up b noop {}", "toxic p1 up c latency {\"latency\":5000}",
 		"halfclose p1 4", "untoxic p1 a", "untoxic p1 b", "toxic p1 up d noop {}"},
+	// the same misalignment, other crash site: the stub after the removed (closed) one is still running
+	// (slow_close waiting) and is restarted with the limit_data toxic just added: no LimitDataToxicState
+	{"proxy p1 echo", "toxic p1 up a timeout {\"timeout\":0}", "toxic p1 up b slow_close {\"delay\":5000}", "stall p1 100",
+		"untoxic p1 a", "toxic p1 up c limit_data {\"bytes\":100}"},
 }
 
 // LowFD: connection load against a server with a small file-descriptor limit.
